@@ -343,6 +343,9 @@ func lsmEnabled(x *seqExec) []string {
 		if x.j.Bool("readonly", false) {
 			ops = append(ops, "RO")
 		}
+		if !st.opts.InMemory {
+			ops = append(ops, "RC")
+		}
 	}
 	if x.j.Bool("closecompact", false) {
 		ops = append(ops, "CX")
@@ -627,6 +630,15 @@ func lsmApply(x *seqExec, op string) bool {
 			panic(fmt.Sprintf("close: %v", err))
 		}
 		x.db = nil
+		if op == "RC" {
+			// re-open with another compression setting: existing tables keep the one recorded for them
+			if st.opts.Compression == options.None {
+				st.opts.Compression = options.Snappy
+				st.opts.BlockCacheSize = 1 << 20
+			} else {
+				st.opts.Compression = options.None
+			}
+		}
 		var ndb *DB
 		var err error
 		if st.opts.managedTxns {
@@ -635,7 +647,12 @@ func lsmApply(x *seqExec, op string) bool {
 			ndb, err = Open(st.opts)
 		}
 		if err != nil {
-			panic(fmt.Sprintf("REOPEN FAILED: %v", err))
+			st.pendC, st.pendD = "reopen-failed", fmt.Sprintf("Open after a clean Close (op %s) failed: %v", op, err)
+			bubbleLeakOK = true
+			// carry on with a fresh handle so that the execution can be torn down
+			st.opts.Dir, st.opts.ValueDir = x.dir+"/after-failed-reopen", x.dir+"/after-failed-reopen"
+			x.db = mustOpen(st.opts)
+			return true
 		}
 		x.db = ndb
 		if st.discard > 0 && st.opts.managedTxns {
